@@ -1,6 +1,6 @@
 SPECIFICATION GSpec
 CONSTANTS
-  MaxId = 5
+  MaxId = 4
   NDocs = 1
   NNames = 2
   NStrs = 1
@@ -14,7 +14,7 @@ CONSTANTS
   MaxViewOps = 4
   MaxPost = 0
   BuildKinds = {"elem", "text"}
-  GModes = {"all", "elem", "allRejB"}
+  GModes = {"all", "allRejB"}
   GListNames = {"a", "*"}
   GKinds = {"it"}
   GMut = {"struct"}
